@@ -60,11 +60,11 @@ static unsigned long st[64];
 enum { S_OPS, S_TOPO, S_TOPO_THIS, S_TOPO_DUMMY, S_STUB, S_CALL_STUB, S_CALL_DUMMY, S_CALL_NATIVE, S_RC_OK, S_EINVAL,
        S_ENOSYS, S_OTHERERR, S_HOOKLOG0, S_HOOKLOG1, S_HOOKLOG2, S_SYSLOG0, S_SYSLOGN, S_SET_EMPTY, S_SET_INF,
        S_SET_OUT, S_SET_COVER, S_SET_VALID, S_SET_DISALLOWED, S_FLAG_UNKNOWN, S_POLICY_BAD, S_LIVE, S_LOADCHECK,
-       S_LEN0, S_NULLPTR, S_FALLTHROUGH, S_DIRTY_OUT, S_N };
+       S_LEN0, S_NULLPTR, S_FALLTHROUGH, S_DIRTY_OUT, S_LOADCHECK_HELPER, S_N };
 static const char *st_names[S_N] = { "ops", "topo", "topo_thissystem", "topo_dummy", "stub_tables", "call_stub", "call_dummy",
   "call_native", "rc_ok", "rc_einval", "rc_enosys", "rc_othererr", "hooklog_0", "hooklog_1", "hooklog_2plus", "syslog_0",
   "syslog_nonempty", "set_empty", "set_infinite", "set_out_of_range", "set_covers_topology", "set_valid", "set_disallowed_bits",
-  "flags_unknown_bits", "policy_invalid", "live_roundtrips", "loadchecks", "len_zero", "null_pointer", "enosys_fallthrough", "dirty_output_bitmaps" };
+  "flags_unknown_bits", "policy_invalid", "live_roundtrips", "loadchecks", "len_zero", "null_pointer", "enosys_fallthrough", "dirty_output_bitmaps", "loadchecks_with_second_thread" };
 
 static const char *errname_of(int e) {
   switch (e) {
@@ -539,9 +539,28 @@ static void do_live(const char *subset, unsigned flags) {
   hwloc_bitmap_free(s); hwloc_bitmap_free(got); hwloc_bitmap_free(raw); hwloc_bitmap_free(last);
 }
 
+/* a second thread with another binding lives while the topology is loaded: "the caller's binding" is the calling THREAD's, not the
+ * process-wide union (x86 discovery saves / restores it; RESTRICT_TO_CPUBINDING reads the process-wide one) */
+struct lc_helper { hwloc_bitmap_t set, after; int ready, done; };
+static void *lc_helper_main(void *arg) {
+  struct lc_helper *h = arg;
+  raw_setaff(h->set);
+  __atomic_store_n(&h->ready, 1, __ATOMIC_SEQ_CST);
+  while (!__atomic_load_n(&h->done, __ATOMIC_SEQ_CST)) usleep(100);
+  raw_getaff(h->after);
+  return NULL;
+}
+
 static void do_loadcheck(unsigned long tflags, const char *comps) {
   hwloc_topology_t t; hwloc_bitmap_t after = hwloc_bitmap_alloc(); char ax[300];
+  struct lc_helper h = { hwloc_bitmap_alloc(), hwloc_bitmap_alloc(), 0, 0 }; pthread_t th; int helper = 0;
   kset("fwd"); slog_reset();
+  raw_getaff(after); hwloc_bitmap_andnot(h.set, orig_aff, after);
+  if (hwloc_bitmap_iszero(h.set)) hwloc_bitmap_copy(h.set, orig_aff);
+  if (!hwloc_bitmap_isequal(h.set, after) && pthread_create(&th, NULL, lc_helper_main, &h) == 0) {
+    helper = 1; st[S_LOADCHECK_HELPER]++;
+    while (!__atomic_load_n(&h.ready, __ATOMIC_SEQ_CST)) usleep(100);
+  }
   if (strcmp(comps, "-")) setenv("HWLOC_COMPONENTS", comps, 1);
   hwloc_topology_init(&t);
   hwloc_topology_set_flags(t, tflags);   /* a refused flag word leaves the default flags */
@@ -550,9 +569,11 @@ static void do_loadcheck(unsigned long tflags, const char *comps) {
   unsetenv("HWLOC_COMPONENTS");
   raw_getaff(after); hexfin(after, ax, sizeof ax);
   (void) rc;   /* whether this component set can discover anything is not the property; the binding is */
-  fprintf(fout, "after=%s\n", ax);
+  int hchanged = 0;
+  if (helper) { __atomic_store_n(&h.done, 1, __ATOMIC_SEQ_CST); pthread_join(th, NULL); hchanged = !hwloc_bitmap_isequal(h.set, h.after); }
+  fprintf(fout, "after=%s%s\n", ax, hchanged ? " other-thread-binding-changed" : "");
   slog_reset(); st[S_LOADCHECK]++;
-  hwloc_bitmap_free(after);
+  hwloc_bitmap_free(after); hwloc_bitmap_free(h.set); hwloc_bitmap_free(h.after);
 }
 
 /* one op line -> one out line; `eff` receives the effective op line (facts re-measured) when non-NULL */
@@ -751,7 +772,7 @@ static void gen_live(unsigned nlive) {
     hexfin(s, sx, sizeof sx);
     static const unsigned fl[] = { HWLOC_CPUBIND_THREAD, HWLOC_CPUBIND_THREAD, 0, HWLOC_CPUBIND_PROCESS, HWLOC_CPUBIND_THREAD | HWLOC_CPUBIND_STRICT };
     emit("live %s %u", sx, fl[rng_below(5)]);
-    if (rng_chance(nlive > 200 ? 3 : 12)) {
+    if (rng_chance(nlive > 200 ? 6 : 35)) {
       static const unsigned long tf[] = { 0, HWLOC_TOPOLOGY_FLAG_IS_THISSYSTEM, HWLOC_TOPOLOGY_FLAG_INCLUDE_DISALLOWED,
         HWLOC_TOPOLOGY_FLAG_RESTRICT_TO_CPUBINDING | HWLOC_TOPOLOGY_FLAG_IS_THISSYSTEM, HWLOC_TOPOLOGY_FLAG_DONT_CHANGE_BINDING, HWLOC_TOPOLOGY_FLAG_THISSYSTEM_ALLOWED_RESOURCES | HWLOC_TOPOLOGY_FLAG_IS_THISSYSTEM,
         HWLOC_TOPOLOGY_FLAG_NO_CPUKINDS | HWLOC_TOPOLOGY_FLAG_NO_DISTANCES, HWLOC_TOPOLOGY_FLAG_RESTRICT_TO_MEMBINDING | HWLOC_TOPOLOGY_FLAG_IS_THISSYSTEM,
